@@ -65,6 +65,43 @@ void h_incdec(void) {
     /* C11 6.5.2.4p2 / 6.5.3.1: the result of ++ and -- has the (unqualified) type of the operand - no integer promotion */
     __CPROVER_assert(rt == t1 && rs == s1, "the result of ++ / -- has the type and signedness of its operand");
 }
+int g_in_c;
+/* c ? a : b with two integer operands: C11 6.5.15p5 - the type the usual arithmetic conversions give (also when both operands
+   have the same type); C++ [expr.cond] - operands of the same type keep it, otherwise the usual arithmetic conversions */
+void h_ternary(void) {
+    struct Platform pl; pl.sizeof_short = 2; pl.sizeof_int = 4; pl.sizeof_long = nondet_size_t(); pl.sizeof_long_long = 8;
+    __CPROVER_assume(pl.sizeof_long == 4 || pl.sizeof_long == 8);
+    enum VType t1 = (enum VType)nondet_int(), t2 = (enum VType)nondet_int(); enum Sign s1 = (enum Sign)nondet_int(), s2 = (enum Sign)nondet_int();
+    __CPROVER_assume(t1 >= VType_BOOL && t1 <= VType_LONGLONG && t2 >= VType_BOOL && t2 <= VType_LONGLONG && t1 != VType_WCHAR_T && t2 != VType_WCHAR_T);
+    __CPROVER_assume(s1 >= Sign_UNKNOWN_SIGN && s1 <= Sign_UNSIGNED && s2 >= Sign_UNKNOWN_SIGN && s2 <= Sign_UNSIGNED);
+    /* bool has no sign, plain char may be unknown, the others are known */
+    __CPROVER_assume(t1 == VType_BOOL ? s1 == Sign_UNKNOWN_SIGN : (t1 == VType_CHAR || s1 != Sign_UNKNOWN_SIGN));
+    __CPROVER_assume(t2 == VType_BOOL ? s2 == Sign_UNKNOWN_SIGN : (t2 == VType_CHAR || s2 != Sign_UNKNOWN_SIGN));
+    g_is_c = nondet_bool();
+    g_in_t1 = t1; g_in_s1 = s1; g_in_t2 = t2; g_in_s2 = s2; g_in_szi = 4; g_in_szl = pl.sizeof_long; g_in_szll = 8; g_in_c = g_is_c;
+    enum VType rt; enum Sign rs;
+    int sel = ternary_select(t1, s1, 0, 1, t2, s2, 0, 1);
+    if (sel == 1) { rt = t1; rs = s1; }
+    else if (sel == 2) { rt = t2; rs = s2; }
+    else conv_block(t1, s1, 1, t2, s2, 1, &pl, &rt, &rs);
+    if (!g_is_c && t1 == t2 && s1 == s2) {
+        __CPROVER_assert(rt == t1 && rs == s1, "C++: operands of the same type keep it");
+        return;
+    }
+    enum VType p1 = t1 < VType_INT ? VType_INT : t1, p2 = t2 < VType_INT ? VType_INT : t2;
+    _Bool u1 = t1 < VType_INT ? 0 : (s1 == Sign_UNSIGNED), u2 = t2 < VType_INT ? 0 : (s2 == Sign_UNSIGNED);
+    enum VType wt; _Bool wu;
+    if (p1 == p2) { wt = p1; wu = u1 || u2; }
+    else {
+        enum VType hi = p1 > p2 ? p1 : p2, lo = p1 > p2 ? p2 : p1; _Bool hu = p1 > p2 ? u1 : u2, lu = p1 > p2 ? u2 : u1;
+        wt = hi;
+        if (hu == lu) wu = hu;
+        else if (hu) wu = 1;
+        else wu = !(rank_size(hi, &pl) > rank_size(lo, &pl));
+    }
+    __CPROVER_assert(rt == wt, "conditional operator: the result type is the common type of the usual arithmetic conversions");
+    __CPROVER_assert((rs == Sign_UNSIGNED) == wu && rs != Sign_UNKNOWN_SIGN, "conditional operator: the result signedness follows the usual arithmetic conversions");
+}
 void h_size(void) {
     struct Platform pl; pl.sizeof_int = nondet_size_t(); pl.sizeof_long = nondet_size_t(); pl.sizeof_long_long = nondet_size_t(); enum VType t = (enum VType)nondet_int();
     size_t r = getIntegerTypeSize(t, &pl);
@@ -120,12 +157,39 @@ def build(ctx):
         (r'\bmSettings\.platform\b', 'platform', 0),
         (r'const size_t lowerSize', 'const size_t lowerSize', 0),
         (r'\bparent->tokType\(\)\s*!=\s*Token::eIncDecOp\b', '!g_is_incdec', 0, 1),      # the parent is ++ / -- (harness flag)
+        (r'\bparent->isC\(\)', 'g_is_c', 0, 1),                                          # the file is C (harness flag)
     ], ID + ".conv"); n += k
+    # the selection block of the conditional operator (same function, before the conversions)
+    fsv = extract.locate_function("lib/symboldatabase.cpp", r'^void SymbolDatabase::setValueType\s*\(\s*Token\s*\*\s*tok\s*,\s*const ValueType\s*&\s*valuetype')
+    msv = extract.mask(fsv.text)
+    hs = list(re.finditer(r'\}\s*else if \(ternary\)\s*\{', msv))
+    if len(hs) != 1:
+        raise extract.ExtractError("setValueType: `else if (ternary) {` found %d times" % len(hs))
+    ob = hs[0].end() - 1
+    cb = extract.match_brace(fsv.text, ob, msv)
+    regt = extract.Located("lib/symboldatabase.cpp", fsv.text[ob + 1:cb], fsv.start + ob + 1, fsv.start + cb, extract.read("lib/symboldatabase.cpp"))
+    kb.add_located("SymbolDatabase::setValueType [operand selection of the conditional operator]", regt, "region")
+    tt, k = located_rules(regt, _common.VT_RULES + [
+        (r'\bsetValueType\(parent,\s*\*vt([12])\)\s*;', r'sel = \1;', 5, 5),
+        (r'\breturn\s*;', 'return sel;', 3, 3),
+        (r'\bvt([12])->isPrimitive\(\)', r'(vt\1_type >= VType_BOOL)   /* ValueType::isPrimitive */', 2, 2),
+        (r'\bvt1->isIntegral\(\)', '(vt1_type >= VType_BOOL && vt1_type <= VType_UNKNOWN_INT)   /* ValueType::isIntegral */', 0, 2),
+        (r'\bvt1->isTypeEqual\(vt2\)', '(has_vt2 && vt1_type == vt2_type && vt1_pointer == vt2_pointer && other_equal)   /* ValueType::isTypeEqual: type, container, pointer, typeScope, smartPointer */', 1, 1),
+        (r'\bvt([12])->(type|sign|pointer)\b', r'vt\1_\2', 4),
+        (r'&& vt2 &&', '&& has_vt2 &&', 2, 2),
+        (r'\bparent->isC\(\)', 'g_is_c', 0, 1),
+    ], ID + ".ternary"); n += k
+    if re.search(r'\bparent\b|\bvt[12]\b(?!_)', extract.mask(tt)):
+        raise extract.ExtractError("K23: the selection block of the conditional operator was not fully lowered: %r" % re.findall(r'[^\n]*(?:\bparent\b|\bvt[12]\b(?!_))[^\n]*', extract.mask(tt))[:3])
+    ternary_fn = ("/* 0: the conversions below decide, 1 / 2: the result has the type of operand 1 / 2 */\n"
+                  "int ternary_select(enum VType vt1_type, enum Sign vt1_sign, int vt1_pointer, _Bool has_vt2, enum VType vt2_type, enum Sign vt2_sign, int vt2_pointer, _Bool other_equal)\n{\n    int sel = 0;\n%s\n    return 0;\n}\n"
+                  % extract.strip_comments(tt))
     if re.search(r'\bparent\b', extract.mask(t)):
         raise extract.ExtractError("K23: a use of `parent` in the conversion block was not lowered: %r" % re.findall(r'[^\n]*\bparent\b[^\n]*', extract.mask(t))[:2])
     if re.search(r'\bvt[12]\b(?!_)', extract.mask(t)):
         raise extract.ExtractError("K23: a use of vt1/vt2 was not lowered: %r" % t.strip()[:300])
-    out.append("_Bool g_is_incdec;   /* the operator is ++ or -- (parent->tokType() == Token::eIncDecOp) */\n")
+    out.append("_Bool g_is_incdec;   /* the operator is ++ or -- (parent->tokType() == Token::eIncDecOp) */\n_Bool g_is_c;        /* the file is C (parent->isC()) */\n")
+    out.append(ternary_fn)
     out.append("void conv_block(enum VType vt1_type, enum Sign vt1_sign, _Bool has_vt2, enum VType vt2_type, enum Sign vt2_sign, _Bool ternary, const struct Platform *platform, enum VType *rt, enum Sign *rs)\n{\n%s\n    *rt = vt.type; *rs = vt.sign;\n}\n"
                % extract.strip_comments(t))
     kb.rules_fired = n
@@ -135,10 +199,11 @@ def build(ctx):
     kb.job("binary", "h_conv", note="loop-free region: complete in both operand types and signs and in the platform sizes (int 4; long 4 or 8; long long 8)")
     kb.job("unary", "h_unary", note="loop-free: complete")
     kb.job("incdec", "h_incdec", note="loop-free: complete; the parent operator is ++ / --")
+    kb.job("ternary", "h_ternary", note="loop-free regions (operand selection + conversions): complete in both operand types and signs, C and C++, long 4 or 8")
     kb.job("getIntegerTypeSize", "h_size", note="loop-free: complete")
     kb.job("cover", "h_cover", kind="cover")
     kb.assumptions += ["region interface: (type, sign) of both operands, presence of the second operand, ternary flag, platform; originalTypeName bookkeeping is dropped",
                        "ValueType::Type orders the integer types by rank (checked each run: BOOL..LONGLONG contiguous and ascending)",
                        "operand signs: known from int upwards; int is 4 bytes (with a 16-bit int unsigned short would promote to unsigned int; the block has no such case)",
-                       "ternary operands and the ++/-- result type are not part of the obligation"]
+                       "conditional operator: integer operands only (pointer / record operands are run for safety, not decided); isTypeEqual's container / typeScope / smartPointer comparison is a flag; isPrimitive / isIntegral are the range tests of lib/symboldatabase.h"]
     return kb
